@@ -31,7 +31,12 @@ Wrappers(ss) ==
     <<If(Node("call", "", <<Grp(FnE(ss))>>), Blk(<<E(A)>>), E(B))>>,
     <<Node("while", "", <<A, Blk(ss)>>), Ret(Nil)>> }
 
-BaseProgs == {<<s>> : s \in Templates} \cup {<<E(x)>> : x \in UNION {Spines(k) : k \in 1..SpineDepth}}
+Siblings ==
+  { <<Node("fdecl", "", <<Id("f"), PList(<<>>), Blk(<<E(A)>>)>>), Blk(<<Blk(<<E(B)>>)>>)>>,
+    <<E(Node("call", "", <<Id("g"), FnE(<<E(A)>>)>>)), If(A, Blk(<<Blk(<<E(B)>>)>>), Nil), E(C)>>,
+    <<Blk(<<Blk(<<E(B)>>)>>), Node("fdecl", "", <<Id("f"), PList(<<>>), Blk(<<E(A)>>)>>), Blk(<<Blk(<<Ret(A)>>)>>)>>,
+    <<Let("x", FnE(<<Blk(<<E(A)>>)>>)), Blk(<<Blk(<<Blk(<<E(B)>>)>>)>>)>> }
+BaseProgs == Siblings \cup {<<s>> : s \in Templates} \cup {<<E(x)>> : x \in UNION {Spines(k) : k \in 1..SpineDepth}}
                                       \cup {<<Let("x", x)>> : x \in UNION {Spines(k) : k \in 1..SpineDepth}}
 
 Init == inst \in Insts(MaxInst) /\ prog \in (IF NestableOnly THEN {<<E(A)>>, <<Ret(Nil)>>} ELSE BaseProgs) /\ nest = 0
